@@ -512,7 +512,7 @@ def two_level_schedules(ctx, site, make, files, cap):
 
 
 def run_site(ctx, site, make, files, n=None, length=60, cap=None, nthreads=3, read_cap=None, points_first=False):
-    n = ctx.scale(30, 500) if n is None else n
+    n = ctx.scale(24, 500) if n is None else n
     two = cap is None
     points = write_point_schedules(ctx, site, make, files, ctx.scale(60, 2000) if cap is None else cap, nthreads, read_cap)
     rand = list(gen_schedules(ctx, nthreads, n, length, two_switch=two))
@@ -1164,7 +1164,7 @@ def schedulers_for(ctx, rng):
         for late in (False, True):
             descs.append(dict(type='model', policy=policy, late=late, workers=rng.choice((1, 2, 3, 5)),
                               seed=rng.randrange(2 ** 30)))
-    for _ in range(ctx.scale(2, 30)):
+    for _ in range(ctx.scale(1, 30)):
         descs.append(dict(type='model', policy='random', late=rng.random() < 0.5, workers=rng.randint(2, 6),
                           seed=rng.randrange(2 ** 30)))
     return descs
@@ -2269,6 +2269,399 @@ def strengthen_site_table(ctx):
     t['s3b'] = (site_s3b(ctx), S3B_FILES)
     return t
 
+
+# ================================================================================================ round 4
+# What the tasks of one graph are handed (Model/ScratchRace.v).  (a) the graph of the scaled / unscaled weights as katdal
+# builds it over an in-memory store: every ndarray that is EMBEDDED in the graph (keyword arguments of da.blockwise /
+# map_blocks, closure variables) must be bit-identical before and after a load -- a block function that writes into one
+# is a data race between any two in-flight tasks, whatever the timing (deterministic, one thread); (b) site kernel_lines /
+# kernel_lines_unscaled: the same graph built with the kernel's PYTHON SOURCE (`weight_power_scale.py_func`, what numba
+# compiles) so that the line-level scheduler reaches INSIDE the kernel: three workers computing different blocks;
+# (c) the extracted kernel machine (wire_214) against the real compiled kernel (divide=False, small integers: exact) and
+# against itself under random schedules with a private / a shared scratch buffer; (d) real thread-pool loads of a data set
+# with realistic chunk sizes, repeated (the backstop for races inside compiled nogil code).
+
+KERNEL_FILES = ['katdal/vis_flags_weights.py']
+_kl = {}
+_kpatch = {}
+
+
+def kernel_patch():
+    """every numba kernel of vis_flags_weights.py is replaced by its Python source for the duration of the kernel_lines
+    sites (also for wrappers that look the kernel up when the task runs)"""
+    import katdal.vis_flags_weights as vfwm
+    for nm, obj in list(vars(vfwm).items()):
+        if hasattr(obj, 'py_func') and nm not in _kpatch:
+            _kpatch[nm] = obj
+            setattr(vfwm, nm, obj.py_func)
+
+
+def kernel_unpatch():
+    import katdal.vis_flags_weights as vfwm
+    for nm, obj in _kpatch.items():
+        setattr(vfwm, nm, obj)
+    _kpatch.clear()
+    _kl.clear()
+
+
+def vfw_fixture(n_ants, T, F, chunks, seed, pyfunc=False, scaled=False):
+    """ChunkStoreVisFlagsWeights over a DictChunkStore: autocorrelations all different, weights need (un)scaling"""
+    import katdal.vis_flags_weights as vfwm
+    from katdal.chunkstore_dict import DictChunkStore
+    rng = np.random.default_rng(seed)
+    i1, i2 = np.triu_indices(n_ants)
+    inputs = ['m%03dh' % i for i in range(n_ants)]
+    corrprods = np.array([(inputs[a], inputs[b]) for a, b in zip(i1, i2)])
+    shape = (T, F, len(corrprods))
+    vis = (rng.normal(size=shape) + 1j * rng.normal(size=shape)).astype(np.complex64)
+    vis[:, :, i1 == i2] = rng.uniform(1.0, 100.0, size=(T, F, n_ants)).astype(np.float32)
+    data = {'correlator_data': vis, 'flags': rng.integers(0, 7, shape, dtype=np.uint8),
+            'weights': rng.integers(1, 255, shape, dtype=np.uint8),
+            'weights_channel': rng.uniform(1.0, 2.0, shape[:2]).astype(np.float32)}
+    store = DictChunkStore(**{'cb1/' + k: v for k, v in data.items()})
+    info = {}
+    for name, array in data.items():
+        ch = tuple((c,) * (n // c) for c, n in zip(chunks, array.shape[:2])) + tuple((n,) for n in array.shape[2:])
+        info[name] = {'prefix': 'cb1', 'chunks': ch, 'shape': array.shape, 'dtype': np.lib.format.dtype_to_descr(array.dtype)}
+    if pyfunc:
+        kernel_patch()          # (undone by kernel_unpatch() when the kernel_lines sites are through)
+    return vfwm.ChunkStoreVisFlagsWeights(store, info, corrprods, stored_weights_are_scaled=scaled)
+
+
+def embedded_arrays(arr):
+    """every ndarray object that sits IN the graph of a dask array (arguments baked into the tasks)"""
+    import functools
+    seen = {}
+
+    def walk(o, d):
+        if isinstance(o, np.ndarray):
+            seen[id(o)] = o
+            return
+        if d > 12 or id(o) in seen or isinstance(o, (str, bytes, int, float, complex, bool, type(None), type, np.dtype, np.generic)):
+            return
+        seen[id(o)] = None
+        if isinstance(o, dict):
+            for v in o.values():
+                walk(v, d + 1)
+        elif isinstance(o, (list, tuple, set, frozenset)):
+            for v in o:
+                walk(v, d + 1)
+        elif isinstance(o, functools.partial):
+            walk(o.args, d + 1)
+            walk(o.keywords, d + 1)
+        else:
+            for attr in ('args', 'kwargs', 'value', 'func', 'indices', 'dsk', 'io_deps'):
+                try:
+                    x = getattr(o, attr)
+                except Exception:   # noqa
+                    continue
+                if attr == 'func' or not callable(x):
+                    walk(x, d + 1)
+            mod = type(o).__module__ or ''
+            if hasattr(o, '__dict__') and mod.startswith(('dask', 'katdal', 'toolz')):
+                for v in list(vars(o).values()):
+                    walk(v, d + 1)
+            if getattr(o, '__closure__', None):
+                for cell in o.__closure__:
+                    try:
+                        walk(cell.cell_contents, d + 1)
+                    except ValueError:
+                        pass
+    g = arr.__dask_graph__()
+    for layer in getattr(g, 'layers', {'': g}).values():
+        walk(layer, 0)
+        walk(dict(layer), 0)
+    return [x for x in seen.values() if isinstance(x, np.ndarray)]
+
+
+def graph_args_case(ctx, seed, scaled):
+    nm = 'unscaled_weights' if scaled else 'weights'
+    case = dict(kind='graph_args', seed=seed, scaled=scaled)
+    vfw = vfw_fixture(3, 4, 4, (2, 2), seed, scaled=scaled)
+    arr = getattr(vfw, nm)
+    em = embedded_arrays(arr)
+    before = [digest(x) for x in em]
+    with dask.config.set(scheduler='synchronous'):
+        first = np.asarray(arr.compute())
+        mid = [digest(x) for x in em]
+        second = np.asarray(arr.compute())
+    changed = [i for i, (x, b) in enumerate(zip(em, mid)) if b != before[i] or digest(x) != b]
+    if changed:
+        x = em[changed[0]]
+        ctx.disagree('what=graph_argument;symptom=written_by_block_function;array=%s' % nm,
+                     dict(case, argument=dict(shape=list(x.shape), dtype=str(x.dtype))), 'changed', 'unchanged',
+                     'an array that is baked into the dask graph (ONE object for all its tasks and for every load) is written '
+                     'into by the block function: a data race between any two tasks in flight',
+                     spec='arguments handed to every block are only read')
+    if not np.array_equal(first, second, equal_nan=True):
+        ctx.disagree('what=graph_argument;symptom=second_load_differs;array=%s' % nm, case, 'differs', None,
+                     'loading the same dask array twice (one thread) gives different values')
+    # a task that writes into one of its INPUT blocks while that block has another reader (sequential run, task by task)
+    from dask.callbacks import Callback
+
+    class InputWatch(Callback):
+        def __init__(self):
+            self.before, self.hits = {}, []
+
+        def _pretask(self, key, dsk, state):
+            deps = state['dependencies'].get(key, ())
+            self.before[key] = {d: (digest(state['cache'][d]), state['cache'][d], len(state['dependents'].get(d, ())))
+                                for d in deps if isinstance(state['cache'].get(d), np.ndarray)}
+
+        def _posttask(self, key, result, dsk, state, worker_id):
+            for d, (dg, v, readers) in self.before.pop(key, {}).items():
+                if digest(v) != dg:         # (the scheduler may have released the block by now: we kept a reference)
+                    self.hits.append((str(key)[:60], str(d)[:60], readers))
+    iw = InputWatch()
+    try:
+        with dask.config.set(scheduler='synchronous'), iw:
+            arr.compute(optimize_graph=False)
+    except Exception:   # noqa
+        ctx.count('graph_args_inputwatch_failed')
+    shared_hits = [h for h in iw.hits if h[2] >= 2]
+    ctx.extra.setdefault('block_inputs_written', {})[nm] = [len(iw.hits), len(shared_hits)]
+    if shared_hits:
+        ctx.disagree('what=graph_argument;symptom=shared_input_block_written;array=%s' % nm, dict(case, task=shared_hits[0][0],
+                     block=shared_hits[0][1]), 'changed', 'unchanged',
+                     'a task writes into an input block that another task of the graph reads too',
+                     spec='arguments handed to every block are only read')
+    ctx.extra.setdefault('graph_embedded_arrays', {})[nm] = len(em)
+    ctx.note_case(('graph_args', nm, seed), nontrivial=len(em) > 0, sample=dict(array=nm, embedded=len(em)))
+    ctx.count('graph_args')
+    ctx.traces_validated += 1
+
+
+def kernel_env(seed, scaled):
+    key = (seed, scaled)
+    if key not in _kl:
+        vfw = vfw_fixture(3, 4, 4, (2, 2), seed, pyfunc=True, scaled=scaled)
+        arr = vfw.unscaled_weights if scaled else vfw.weights
+        ref = vfw_fixture(3, 4, 4, (2, 2), seed, pyfunc=True, scaled=scaled)
+        rarr = ref.unscaled_weights if scaled else ref.weights
+        exp = {(ti, fi): np.asarray(rarr.blocks[ti, fi, 0].compute(scheduler='synchronous')) for ti in (0, 1) for fi in (0, 1)}
+        _kl[key] = (arr, exp)
+    return _kl[key]
+
+
+def site_kernel_lines(seed, scaled):
+    """Three dask workers computing DIFFERENT blocks of the power-scaled weights; the graph holds the Python source of the
+    numba kernel, so every line of the kernel (filling the autocorrelation scratch, using it, writing `out`) is a
+    scheduling point.  Every block must be bit-identical to the block one thread computes."""
+    plan = [[(0, 0)], [(1, 1)], [(0, 1), (1, 0)]]
+
+    def make(s):
+        arr, exp = kernel_env(seed, scaled)
+
+        def worker(t):
+            def f():
+                return [np.asarray(arr.blocks[ti, fi, 0].compute(scheduler='synchronous')) for ti, fi in plan[t]]
+            return f
+
+        def check(results):
+            for t in range(3):
+                for key, got in zip(plan[t], results[t][1]):
+                    e = exp[key]
+                    if got.shape != e.shape or got.dtype != e.dtype or not np.array_equal(got, e, equal_nan=True):
+                        n = int(np.sum(got != e)) if got.shape == e.shape else -1
+                        return 'wrong_value; thread %d block %s differs from the single-threaded block in %d places' % (t, key, n)
+            return None
+        return [worker(0), worker(1), worker(2)], check
+    return make
+
+
+def kernel_cross_check(ctx):
+    """wire_214: the kernel machine (single memory accesses) against the real compiled kernel on exact data, and under random
+    schedules with a private scratch buffer (theorem: as alone) and a shared one (counted: how often wrong)"""
+    from katdal.vis_flags_weights import weight_power_scale, corrprod_to_autocorr
+    import inspect
+    rng = ctx.rng
+    # behavioural tie of the translator's 'written parameters' of the kernel: which array arguments does a call change?
+    try:
+        from vh.items import c20 as items
+        from fixtures import sharedwrites as sw
+        import ast as _ast
+        tree = _ast.parse(open(sw.repo_root() + '/katdal/vis_flags_weights.py').read())
+        fn = [n for n in tree.body if isinstance(n, _ast.FunctionDef) and n.name == 'weight_power_scale'][0]
+        listed = set(items._written_params(tree, fn))
+    except Exception:   # noqa
+        listed = None
+    wrong_shared = 0
+    cases = []
+    for _ in range(ctx.scale(60, 600)):
+        n_in = rng.randint(1, 4)
+        inputs = ['i%d' % k for k in range(n_in)]
+        cps = [(a, b) for a in inputs for b in inputs if a <= b]
+        rng.shuffle(cps)                              # unsorted correlation products
+        if rng.random() < 0.3 and len(cps) > 1:
+            cps.append(rng.choice(cps))               # a duplicate baseline
+        autos, i1, i2 = corrprod_to_autocorr(cps)
+        ntask = rng.randint(1, 3)
+        vis = [[rng.randint(1, 9) for _ in cps] for _ in range(ntask)]
+        ws = [[rng.randint(0, 9) for _ in cps] for _ in range(ntask)]
+        plen = 2 * len(autos) + 4 * len(cps)
+        sched = [rng.randrange(ntask) for _ in range(plen * ntask)] + [t for t in range(ntask) for _ in range(plen)]
+        for sh in (0, 1):
+            cases.append((cps, autos, i1, i2, vis, ws, sh, sched))
+    if ctx.model_ok and not ctx.searching:
+        outs = ctx.model([[214, [[int(a) for a in au], [int(a) for a in a1], [int(a) for a in a2], sh, vis, ws, sched]]
+                          for _, au, a1, a2, vis, ws, sh, sched in cases])
+    else:
+        outs = [None] * len(cases)
+    for (cps, au, a1, a2, vis, ws, sh, sched), o in zip(cases, outs):
+        real = []
+        for t in range(len(vis)):
+            v = np.array(vis[t], np.complex64).reshape(1, 1, -1)
+            w = np.array(ws[t], np.float32).reshape(1, 1, -1)
+            kw = {}
+            extra = {}
+            for pn, par in inspect.signature(getattr(weight_power_scale, 'py_func', weight_power_scale)).parameters.items():
+                if pn not in ('vis', 'weights', 'auto_indices', 'index1', 'index2', 'out', 'divide') and par.default is None:
+                    extra[pn] = np.zeros(len(au), np.float32)        # an optional work buffer: hand one in
+            outb = np.full(v.shape, -1.0, np.float32)
+            given = dict(vis=v, weights=w, auto_indices=au, index1=a1, index2=a2, out=outb, **extra)
+            before = {k: digest(x) for k, x in given.items()}
+            try:
+                r = weight_power_scale(v, w, au, a1, a2, out=outb, divide=False, **extra)
+            except Exception:   # noqa
+                r = weight_power_scale(v, w, au, a1, a2, out=outb, divide=False)
+            touched = {k for k, x in given.items() if digest(x) != before[k]}
+            if listed is not None and sh == 0 and not touched <= listed:
+                ctx.disagree('what=kernel_params;symptom=writes_unlisted_parameter',
+                             dict(kind='model_kernel', corrprods=[list(c) for c in cps]), sorted(touched), sorted(listed),
+                             'weight_power_scale changes an argument the translator does not list as written', kind='tie')
+            real.append([int(x) for x in np.asarray(r).ravel()])
+        if o is None or o == [-999]:
+            continue
+        run_out, solo_out, fin = o
+        case = dict(kind='model_kernel', corrprods=[list(c) for c in cps], vis=vis, weights=ws, shared=sh, schedule=sched)
+        if solo_out != real:
+            ctx.disagree('what=kernel_model;symptom=model_differs', case, real, solo_out,
+                         'extracted kernel machine (task alone) differs from the compiled weight_power_scale', kind='tie')
+        if not all(fin):
+            ctx.disagree('what=kernel_model;symptom=unfinished', case, fin, None, 'schedule did not finish the tasks', kind='tie')
+        if sh == 0 and run_out != solo_out:
+            ctx.disagree('what=kernel_model;symptom=private_scratch_differs', case, run_out, solo_out,
+                         'extracted kernel machine: a race-free run differs from the tasks alone (contradicts the theorem)', kind='tie')
+        if sh == 1 and run_out != solo_out:
+            wrong_shared += 1
+        ctx.note_case(('model_kernel', tuple(map(tuple, cps)), sh, tuple(sched[:40])), nontrivial=len(vis) > 1,
+                      sample=dict(corrprods=len(cps), tasks=len(vis), shared=sh))
+        ctx.traces_validated += 1
+        ctx.count('kernel_model:shared=%d' % sh)
+        ctx.count('kernel_model:inputs=%d' % len(au))
+    ctx.extra['model_shared_scratch_wrong_runs'] = wrong_shared
+
+
+
+def guard_cross_check(ctx):
+    """wire_215: the recursion-guard machine on random schedules.  No test / test inside the lock: no thread is ever told its
+    name 'depends on itself', every finished thread finds its name cached (the theorem); test outside: counted."""
+    if not ctx.model_ok or ctx.searching:
+        return
+    rng = ctx.rng
+    cases = []
+    for _ in range(ctx.scale(150, 2000)):
+        n = rng.randint(1, 4)
+        wants = [rng.randint(0, 2) for _ in range(n)]
+        lens = [rng.randint(0, 3) for _ in range(3)]
+        r = rng.random()
+        if r < 0.5:
+            sched = [rng.randrange(n) for _ in range(rng.randint(0, 14 * n))]
+        else:
+            sched, cur = [], rng.randrange(n)
+            for _ in range(rng.randint(4, 14 * n)):
+                if rng.random() < 0.2:
+                    cur = rng.randrange(n)
+                sched.append(cur)
+        if rng.random() < 0.5:
+            sched += [t for t in range(n) for _ in range(12)]
+        for pos in (0, 1, 2):
+            cases.append((pos, wants, lens, sched))
+    outs = ctx.model([[215, [p, w, l, s]] for p, w, l, s in cases])
+    raised = 0
+    for (pos, wants, lens, sched), o in zip(cases, outs):
+        if o == [-999]:
+            continue
+        states, busy, cached = o
+        bad = [t for t, st in enumerate(states) if st == 8]
+        done_uncached = [t for t, st in enumerate(states) if st == 7 and wants[t] not in cached]
+        if pos != 2 and (bad or done_uncached):
+            ctx.disagree('what=model_guard;symptom=%s' % ('spurious_keyerror' if bad else 'done_but_not_cached'),
+                         dict(kind='model_guard', pos=pos, wants=wants, lens=lens, schedule=sched), states, None,
+                         'extracted recursion-guard machine: a run with the test inside the lock / without a test contradicts the theorem',
+                         kind='tie')
+        if pos == 2 and bad:
+            raised += 1
+        ctx.note_case(('model_guard', pos, tuple(wants), tuple(lens), tuple(sched)), nontrivial=len(wants) > 1,
+                      sample=dict(pos=pos, threads=len(wants)))
+        ctx.count('model_guard:pos=%d' % pos)
+        ctx.traces_validated += 1
+    ctx.extra['model_guard_outside_spurious_keyerror_runs'] = raised
+
+
+STRESS = dict(n_ants=16, T=32, F=1024, chunks=(4, 128))
+
+
+def stress_loads(ctx, only=None):
+    """(d) real thread pools on a data set with realistic chunk sizes (64 chunks of 4 x 128 x 136): loads with 2 / 4 / 8 /
+    16 dask workers and three user threads indexing ONE indexer, each repeated, bit-exact against the synchronous load"""
+    import threading
+    import time
+    seed = ctx.seed % 1000 if only is None else only['seed']
+    t0 = time.time()
+    budget = ctx.scale(3.5, 120.0)
+    for scaled in (False, True):
+        nm = 'unscaled_weights' if scaled else 'weights'
+        if only is not None and only['scaled'] != scaled:
+            continue
+        fx = guarded(lambda: vfw_fixture(seed=seed, scaled=scaled, **STRESS), 120)
+        arr = getattr(fx, nm)
+        with dask.config.set(scheduler='synchronous'):
+            ref = guarded(lambda: DaskLazyIndexer(arr)[:], 120)
+        rounds = ctx.scale(4, 40) if only is None else 12
+        for rnd in range(rounds):
+            for mode in ((2, 4, 8, 16, 'users') if only is None else (only['mode'],)):
+                if time.time() - t0 > budget * (0.55 if not scaled else 1.0) and only is None:
+                    break
+                case = dict(kind='stress_load', seed=seed, scaled=scaled, mode=mode)
+                gots = []
+                try:
+                    if mode == 'users':
+                        ind = DaskLazyIndexer(arr)
+                        res = {}
+
+                        def user(k):
+                            res[k] = ind[:]
+                        with dask.config.set(scheduler='synchronous'):
+                            ths = [threading.Thread(target=user, args=(k,), daemon=True) for k in range(3)]
+                            for th in ths:
+                                th.start()
+                            for th in ths:
+                                th.join(120)
+                        gots = [res.get(k) for k in range(3)]
+                    else:
+                        with dask.config.set(scheduler='threads', num_workers=mode):
+                            gots = [guarded(lambda: DaskLazyIndexer(arr)[:], 120)]
+                except Exception as e:   # noqa
+                    ctx.disagree('what=threaded_load;sched=stress;symptom=raises_%s' % type(e).__name__, case, repr(e)[:200], None,
+                                 'a multi-threaded load raised; the single-threaded load does not')
+                    continue
+                for g in gots:
+                    if g is None or g.shape != ref.shape or not np.array_equal(g, ref, equal_nan=True):
+                        nbad = int(np.sum(~((g == ref) | ((g != g) & (ref != ref))))) if g is not None and g.shape == ref.shape else -1
+                        ctx.disagree('what=threaded_load;sched=stress;array=%s' % nm, dict(case, differing=nbad), 'differs', None,
+                                     'multi-threaded load (real thread pool, realistic chunk sizes) differs from the single-threaded load',
+                                     spec='arrays identical to the synchronous load')
+                        break
+                ctx.note_case(('stress_load', nm, mode, rnd), nontrivial=True, sample=dict(array=nm, mode=str(mode)))
+                ctx.count('stress_load:%s' % mode)
+                ctx.traces_validated += 1
+
+
+def round4_site_table(ctx):
+    return {'kernel_lines': (site_kernel_lines(ctx.seed % 1000, False), KERNEL_FILES),
+            'kernel_lines_unscaled': (site_kernel_lines(ctx.seed % 1000, True), KERNEL_FILES)}
+
 # ------------------------------------------------------------------------------------------------ driver
 
 def site_table(ctx):
@@ -2285,6 +2678,7 @@ def site_table(ctx):
         t['sensor_' + k] = (site_sensor(k), ['katdal/sensordata.py'])
     t.update(ext_site_table(ctx))
     t.update(strengthen_site_table(ctx))
+    t.update(round4_site_table(ctx))
     return t
 
 
@@ -2308,7 +2702,13 @@ def run(ctx):
     request_cross_check(ctx)
     blocks_cross_check(ctx)
     budget_cross_check(ctx)
+    kernel_cross_check(ctx)
+    guard_cross_check(ctx)
     _timed(ctx, 'models', t0)
+    t1 = time.time()
+    for scaled in (False, True):
+        graph_args_case(ctx, ctx.seed % 1000, scaled)
+    _timed(ctx, 'graph_args', t1)
     table = site_table(ctx)
     for site, (make, files) in table.items():
         t1 = time.time()
@@ -2340,6 +2740,11 @@ def run(ctx):
             except Hang as e:
                 ctx.disagree('what=single_thread_load;symptom=open_hangs', dict(site=site, schedule=[]), str(e), None,
                              'opening a v4 data set with applycal and computing one block from ONE thread does not return')
+        elif site.startswith('kernel_lines'):
+            try:
+                run_site(ctx, site, make, files, n=ctx.scale(3, 120), length=1500, cap=ctx.scale(7, 400), read_cap=0)
+            finally:
+                kernel_unpatch()
         elif site == 's3b':
             run_site(ctx, site, make, files, n=ctx.scale(4, 80), length=600, cap=ctx.scale(48, 400), read_cap=ctx.scale(4, 100),
                      points_first=True)
@@ -2361,6 +2766,9 @@ def run(ctx):
     t1 = time.time()
     threaded_vs_sync(ctx)
     _timed(ctx, 'loads', t1)
+    t1 = time.time()
+    stress_loads(ctx)
+    _timed(ctx, 'stress_loads', t1)
     if 's' in _s3:
         _s3.pop('s').close()
     if 's' in _s3x:
@@ -2423,6 +2831,18 @@ def replay_case(ctx, case):
         {'model_props': props_cross_check, 'model_verify': verify_cross_check, 'model_request': request_cross_check,
          'model_blocks': blocks_cross_check, 'model_budget': budget_cross_check}[kind](ctx)
         return
+    if kind == 'graph_args':
+        graph_args_case(ctx, case['seed'], case['scaled'])
+        return
+    if kind == 'stress_load':
+        stress_loads(ctx, only=case)
+        return
+    if kind == 'model_kernel':
+        kernel_cross_check(ctx)
+        return
+    if kind == 'model_guard':
+        guard_cross_check(ctx)
+        return
     if kind in ('store_writes', 'load'):
         try:
             replay_load(ctx, case, kind)
@@ -2462,6 +2882,7 @@ def replay_case(ctx, case):
         else:
             run_one(ctx, site, make, files, case.get('schedule', []), replaying=True)
     finally:
+        kernel_unpatch()
         load_lines_cleanup()
         v4p_cleanup()
         applycal_cleanup()
